@@ -119,6 +119,7 @@ void splinetable<Alloc>::convolve(const uint32_t dim, const double* conv_knots, 
 	//have to make temporary buffers for it.
 	
 	deallocate(this->coefficients,this->naxes[0]*this->strides[0]);
+	this->coefficients = nullptr;
 	
 	std::unique_ptr<std::unique_ptr<double[]>[]> knots_store(new std::unique_ptr<double[]>[ndim]);
 	for (uint32_t i = 0; i < ndim; i++) {
@@ -128,6 +129,7 @@ void splinetable<Alloc>::convolve(const uint32_t dim, const double* conv_knots, 
 			std::copy(knots[i],knots[i]+nknots[i],knots_store[i].get());
 		}
 		deallocate(knots[i]-order[i],nknots[i]+2*order[i]);
+		knots[i] = nullptr;
 	}
 	
 	this->nknots[dim] = n_rho;
@@ -135,13 +137,19 @@ void splinetable<Alloc>::convolve(const uint32_t dim, const double* conv_knots, 
 	this->naxes[dim] = naxes[dim];
 	std::copy(strides.get(),strides.get()+ndim,this->strides);
 	
-	this->coefficients = allocate<float>(arraysize);
-	std::copy(coefficients.get(),coefficients.get()+arraysize,this->coefficients);
-	
-	for (uint32_t i = 0; i < ndim; i++) {
-		knots[i] = allocate<double>(nknots[i]+2*order[i]) + order[i];
-		double* src = (i!=dim ? knots_store[i].get() : rho);
-		std::copy(src,src+nknots[i],&knots[i][0]);
+	//The old arrays are gone; if the new ones cannot be had the table is empty
+	try{
+		this->coefficients = allocate<float>(arraysize);
+		std::copy(coefficients.get(),coefficients.get()+arraysize,this->coefficients);
+		
+		for (uint32_t i = 0; i < ndim; i++) {
+			knots[i] = allocate<double>(nknots[i]+2*order[i]) + order[i];
+			double* src = (i!=dim ? knots_store[i].get() : rho);
+			std::copy(src,src+nknots[i],&knots[i][0]);
+		}
+	}catch(...){
+		clear();
+		throw;
 	}
 	
 	/*
